@@ -327,6 +327,13 @@ func (c *EvalCtx) ident(name string) Value {
 		return VStr{moduleAddrTerm()}
 	case "ext":
 		return VOpaque{"ext"}
+	case "loopidx":
+		// number of elements the innermost loop has finished (header) / index of the element at hand (body):
+		// rangeindex+1 for a range loop, the counter compared in the guard for an index loop
+		if v := c.loopIdx(); v != nil {
+			return v
+		}
+		fail("loopidx: no enclosing loop with an index")
 	}
 	// local variable of the function (loop invariants): phi or alloc with that comment
 	if c.fn != nil {
@@ -339,6 +346,41 @@ func (c *EvalCtx) ident(name string) Value {
 }
 
 func moduleAddrTerm() *Term { return App("moduleAddr", SBytes, BytesConst("cctp")) }
+
+func (c *EvalCtx) loopIdx() Value {
+	h := c.loopHeader
+	if h == nil || c.fn == nil {
+		return nil
+	}
+	var fr *Frame
+	for _, f := range c.state().frames {
+		if f.Fn == c.fn {
+			fr = f
+		}
+	}
+	if fr == nil {
+		return nil
+	}
+	for _, in := range h.Instrs {
+		if x, ok := in.(*ssa.Phi); ok && x.Comment == "rangeindex" {
+			if v, ok := fr.Regs[x].(VBV); ok {
+				return VBV{BVAdd(v.T, BV(v.T.Width(), 1)), v.Signed}
+			}
+		}
+	}
+	if iff, ok := h.Instrs[len(h.Instrs)-1].(*ssa.If); ok {
+		if bin, ok := iff.Cond.(*ssa.BinOp); ok {
+			for _, side := range []ssa.Value{bin.X, bin.Y} {
+				if phi, ok := side.(*ssa.Phi); ok && phi.Block() == h {
+					if v, ok := fr.Regs[phi].(VBV); ok {
+						return v
+					}
+				}
+			}
+		}
+	}
+	return nil
+}
 
 func (c *EvalCtx) local(name string) (Value, bool) {
 	st := c.state()
@@ -394,6 +436,40 @@ func (c *EvalCtx) local(name string) (Value, bool) {
 	}
 	if found != nil {
 		return found, true
+	}
+	// the source name is gone (renamed local): fall back on the shape recorded in the contract
+	if ct := c.ex.contracts[fnName(c.fn)]; ct != nil {
+		if d, ok := ct.Locals[name]; ok {
+			n := 0
+			for _, b := range c.fn.Blocks {
+				for _, in := range b.Instrs {
+					var t types.Type
+					switch x := in.(type) {
+					case *ssa.Phi:
+						t = x.Type()
+					case *ssa.Alloc:
+						t = x.Type().(*types.Pointer).Elem()
+					case *ssa.MakeMap:
+						t = x.Type()
+					default:
+						continue
+					}
+					if typeShort(t) != d.Type {
+						continue
+					}
+					if n == d.N {
+						if v, ok := fr.Regs[in.(ssa.Value)]; ok {
+							if _, isAlloc := in.(*ssa.Alloc); isAlloc {
+								return c.ex.specLoad(st, v), true
+							}
+							return v, true
+						}
+						return nil, false
+					}
+					n++
+				}
+			}
+		}
 	}
 	return nil, false
 }
